@@ -42,6 +42,7 @@ def _spec(module):
             'rules': [bnd.bnd_parse, parse.c10_structure, parse.bnd6, tab.tab13, parse.num2, parse.num3, parse.num5, parse.tab22,
                       lambda units, R: parse.tab22(units, R, 'bad_TAB22_signed_skip'), lambda units, R: parse.tab22(units, R, 'good_unsigned_skip'),
                       lambda units, R: parse.tab1(units, R, claim=('pv_bad', 'pv_good', 'pv_skip'))] +
+                     [(lambda n_: (lambda units, R: parse.num6(units, R, n_)))(n_) for n_ in ('bad_NUM6_erange', 'good_overflow_only')] +
                      [(lambda n_: (lambda units, R: parse.ent1(units, R, n_, 'fx_value', 0)))(n_) for n_ in (
                          'bad_ENT1_blank_test', 'good_blank_test', 'bad_ENT1_refuses_digits', 'good_nothing_left')],
         }, {
